@@ -182,46 +182,48 @@ def enumBody (sp : Char → Bool) (l : List Char) : Option (List Char × List Ch
     | _ => none
   | _ => none
 
-def matchEnum (sp : Char → Bool) (l : List Char) : Option (EnumM × List Char × List Char) :=
-  let kw : Option (Bool × List Char × List Char) :=
-    match lit ['e', 'n', 'u', 'm'] l with
-    | some r => some (false, ['e', 'n', 'u', 'm'], r)
-    | none => match lit ['f', 'l', 'a', 'g'] l with
-      | some r => some (true, ['f', 'l', 'a', 'g'], r)
+/-- `(?P<enumtype>enum|flag)`: (is flag, keyword, rest) -/
+def enumKw (l : List Char) : Option (Bool × List Char × List Char) :=
+  match lit ['e', 'n', 'u', 'm'] l with
+  | some r => some (false, ['e', 'n', 'u', 'm'], r)
+  | none =>
+    match lit ['f', 'l', 'a', 'g'] l with
+    | some r => some (true, ['f', 'l', 'a', 'g'], r)
+    | none => none
+
+/-- `(:\s*(?P<type>[^{]+?)\s*)?` in front of `{`: (type, matched text, rest — it starts with `{` when there was a `:`) -/
+def enumType (sp : Char → Bool) (r4 : List Char) : Option (Option (List Char) × List Char × List Char) :=
+  match r4 with
+  | ':' :: r5 =>
+    let w := r5.takeWhile sp
+    let r6 := r5.dropWhile sp
+    let R := r6.takeWhile (· != '{')
+    let r7 := r6.dropWhile (· != '{')
+    match R with
+    | _ :: _ => some (some (rstripBy sp R), ':' :: w ++ R, r7)
+    | [] =>
+      match w.getLast? with
+      | some c => some (some [c], ':' :: w, r7)
       | none => none
-  match kw with
+  | _ => some (none, [], r4)
+
+def matchEnum (sp : Char → Bool) (l : List Char) : Option (EnumM × List Char × List Char) :=
+  match enumKw l with
   | none => none
   | some (fl, kwt, r1) =>
     let ws1 := r1.takeWhile sp
     let r2 := r1.dropWhile sp
-    let isName := fun c => !sp c && c != ':' && c != '{'
-    let nm := r2.takeWhile isName
-    let r3 := r2.dropWhile isName
+    let nm := r2.takeWhile (fun c => !sp c && c != ':' && c != '{')
+    let r3 := r2.dropWhile (fun c => !sp c && c != ':' && c != '{')
     let ws2 := r3.takeWhile sp
     let r4 := r3.dropWhile sp
-    let name := if nm.isEmpty then none else some nm
     if ws1.isEmpty then none else
-    match r4 with
-    | ':' :: r5 =>
-      let w := r5.takeWhile sp
-      let r6 := r5.dropWhile sp
-      let R := r6.takeWhile (· != '{')
-      let r7 := r6.dropWhile (· != '{')
-      match R with
-      | _ :: _ =>
-        match enumBody sp r7 with
-        | some (vals, bt, rest) => some (⟨fl, name, some (rstripBy sp R), vals⟩, kwt ++ ws1 ++ nm ++ ws2 ++ ':' :: w ++ R ++ bt, rest)
-        | none => none
-      | [] =>
-        match w.getLast? with
-        | some c =>
-          match enumBody sp r7 with
-          | some (vals, bt, rest) => some (⟨fl, name, some [c], vals⟩, kwt ++ ws1 ++ nm ++ ws2 ++ ':' :: w ++ bt, rest)
-          | none => none
-        | none => none
-    | _ =>
-      match enumBody sp r4 with
-      | some (vals, bt, rest) => some (⟨fl, name, none, vals⟩, kwt ++ ws1 ++ nm ++ ws2 ++ bt, rest)
+    match enumType sp r4 with
+    | none => none
+    | some (ty, tt, r7) =>
+      match enumBody sp r7 with
+      | some (vals, bt, rest) =>
+        some (⟨fl, if nm.isEmpty then none else some nm, ty, vals⟩, kwt ++ ws1 ++ nm ++ ws2 ++ tt ++ bt, rest)
       | none => none
 
 /-- the repetition of `\s*,\s*[a-zA-Z0-9_]+` after a first name, as long as possible.  A comma that is not followed by
@@ -278,45 +280,54 @@ structure NameM where
   count : Option (List Char)
   deriving DecidableEq, Repr
 
+/-- `(?:\*\s*)*` -/
+def namePre (sp : Char → Bool) : List Char → List Char
+  | '*' :: r => '*' :: r.takeWhile (fun c => c == '*' || sp c)
+  | _ => []
+
+/-- `(?:\s*:\s*(\d+))?` at `r`: (digits, matched text, rest) -/
+def nameBits (sp : Char → Bool) (r : List Char) : Option (List Char × List Char × List Char) :=
+  match r.dropWhile sp with
+  | ':' :: r1 =>
+    let ds := (r1.dropWhile sp).takeWhile Char.isDigit
+    if ds.isEmpty then none
+    else some (ds, r.takeWhile sp ++ ':' :: r1.takeWhile sp ++ ds, (r1.dropWhile sp).dropWhile Char.isDigit)
+  | _ => none
+
+/-- `\s*(?=;)` at `r`: (white space, rest) -/
+def nameTail (sp : Char → Bool) (r : List Char) : Option (List Char × List Char) :=
+  match r.dropWhile sp with
+  | ';' :: rest => some (r.takeWhile sp, ';' :: rest)
+  | _ => none
+
+/-- `(?:\[([^;\n]*)\])?\s*(?=;)` at `r`: (count, matched text, rest) -/
+def nameCount (sp : Char → Bool) (r : List Char) : Option (Option (List Char) × List Char × List Char) :=
+  match r with
+  | '[' :: r3 =>
+    match splitLastClose (r3.takeWhile (fun c => c != ';' && c != '\n')) with
+    | some (cnt, _) =>
+      match nameTail sp (r3.drop (cnt.length + 1)) with
+      | some (ws, rest) => some (some cnt, '[' :: cnt ++ ']' :: ws, rest)
+      | none => none
+    | none => none
+  | _ =>
+    match nameTail sp r with
+    | some (ws, rest) => some (none, ws, rest)
+    | none => none
+
 def matchName (sp : Char → Bool) (l : List Char) : Option (NameM × List Char × List Char) :=
-  let pre := match l with
-    | '*' :: _ => l.takeWhile (fun c => c == '*' || sp c)
-    | _ => []
+  let pre := namePre sp l
   let r0 := l.drop pre.length
   let w := r0.takeWhile isWord
   let r1 := r0.dropWhile isWord
   if w.isEmpty then none else
-  -- (?:\s*:\s*(\d+))?
-  let wsa := r1.takeWhile sp
-  let bitsM : Option (List Char × List Char × List Char) :=
-    match r1.dropWhile sp with
-    | ':' :: r =>
-      let wsb := r.takeWhile sp
-      let r' := r.dropWhile sp
-      let ds := r'.takeWhile Char.isDigit
-      if ds.isEmpty then none else some (ds, wsa ++ ':' :: wsb ++ ds, r'.dropWhile Char.isDigit)
-    | _ => none
+  let bitsM := nameBits sp r1
   let bits := bitsM.map (·.1)
   let bt := match bitsM with | some (_, t, _) => t | none => []
   let r2 := match bitsM with | some (_, _, r) => r | none => r1
-  -- (?:\[([^;\n]*)\])?\s*(?=;)
-  let tail (r : List Char) : Option (List Char × List Char) :=
-    match r.dropWhile sp with
-    | ';' :: rest => some (r.takeWhile sp, ';' :: rest)
-    | _ => none
-  match r2 with
-  | '[' :: r3 =>
-    let R := r3.takeWhile (fun c => c != ';' && c != '\n')
-    match splitLastClose R with
-    | some (cnt, _) =>
-      match tail (r3.drop (cnt.length + 1)) with
-      | some (ws, rest) => some (⟨pre ++ w, bits, some cnt⟩, pre ++ w ++ bt ++ '[' :: cnt ++ ']' :: ws, rest)
-      | none => none
-    | none => none
-  | _ =>
-    match tail r2 with
-    | some (ws, rest) => some (⟨pre ++ w, bits, none⟩, pre ++ w ++ bt ++ ws, rest)
-    | none => none
+  match nameCount sp r2 with
+  | some (cnt, ct, rest) => some (⟨pre ++ w, bits, cnt⟩, pre ++ w ++ bt ++ ct, rest)
+  | none => none
 
 /-- `[a-zA-Z_][a-zA-Z0-9_]*` -/
 def matchIdent (l : List Char) : Option (List Char × List Char) :=
@@ -553,78 +564,95 @@ def parseDeclarator (text : List Char) : Except PErr Declarator :=
     if dims.dropLast.any (·.isEmpty) then .error .depthRequired else
     .ok ⟨depth, strip nm, dims, m.bits.map digitsToNat⟩
 
-/-- `TokenConsumer.eol` -/
-def eol : List Tok → Except PErr (List Tok)
-  | [] => .error .eolIndex
-  | t :: r => if t.kind = .eol then .ok r else .error .eolAttribute
-
-/-- `_identifier`: (the identifiers joined by one blank, the remaining tokens) -/
-def identifier : List Tok → List Char × List Tok
-  | t :: r =>
-    if t.kind = .ident then
-      match r with
-      | t' :: _ =>
-        if t'.kind = .ident then let (s, r') := identifier r; (t.value ++ ' ' :: s, r') else (t.value, r)
-      | [] => (t.value, r)
-    else ([], t :: r)
-  | [] => ([], [])
-
-/-- `_names` -/
-def names : List Tok → Except PErr (List (List Char) × List Tok)
-  | [] => .ok ([], [])
-  | t :: r =>
-    if t.kind = .eol then .ok ([], r)
-    else if t.kind = .name then
-      match names r with
-      | .ok (ns, r') => .ok (strip t.value :: ns, r')
-      | .error e => .error e
-    else if t.kind = .defs then
-      match names r with
-      | .ok (ns, r') => .ok ((splitOn1 ',' (strip t.value)).map strip ++ ns, r')
-      | .error e => .error e
-    else .ok ([], t :: r)
+/-- What the handlers read off a token.  The handlers never look at a token's text except through the token's own pattern
+    (`pattern.match(token.value [+ ";"]).groupdict()`), `str.strip`, `str.startswith("union")`, `value == "}"` and the
+    identifier text; `Tok.obs` performs exactly these reads, and the handlers below work on the observed tokens.  (A failed
+    re-match — `none` — is the AttributeError of `None.groupdict()`.) -/
+inductive OTok
+  | config (m : Option ConfigM)
+  | define (m : Option DefineM)
+  | typedef
+  | struct (isUnion : Bool)
+  | enum (m : Option EnumM)
+  | defs (names : List (List Char))                                   -- `[n.strip() for n in value.strip().split(",")]`
+  | name (stripped : List Char) (d : Except PErr Declarator)         -- `value.strip()`, `_parse_field_type(·, value)`
+  | ident (v : List Char)
+  | block (isClose : Bool)
+  | lookup (m : Option LookupM)
+  | eol
+  deriving Repr, Inhabited
 
 def startsWith (p l : List Char) : Bool := (lit p l).isSome
 
+def Tok.obs (t : Tok) : OTok :=
+  match t.kind with
+  | .config => .config ((matchConfig t.value).map (·.1))
+  | .define => .define ((matchDefine isWs t.value).map (·.1))
+  | .typedef => .typedef
+  | .struct => .struct (startsWith ['u', 'n', 'i', 'o', 'n'] t.value)
+  | .enum => .enum ((matchEnum isWs (t.value ++ [';'])).map (·.1))
+  | .defs => .defs ((splitOn1 ',' (strip t.value)).map strip)
+  | .name => .name (strip t.value) (parseDeclarator t.value)
+  | .ident => .ident t.value
+  | .block => .block (t.value = ['}'])
+  | .lookup => .lookup ((matchLookup isWs (t.value ++ [';'])).map (·.1))
+  | .eol => .eol
+
+/-- `TokenConsumer.eol` -/
+def eol : List OTok → Except PErr (List OTok)
+  | [] => .error .eolIndex
+  | .eol :: r => .ok r
+  | _ :: _ => .error .eolAttribute
+
+/-- `_identifier`: (the identifiers joined by one blank, the remaining tokens) -/
+def identifier : List OTok → List Char × List OTok
+  | .ident v :: r =>
+    match r with
+    | .ident _ :: _ => let (s, r') := identifier r; (v ++ ' ' :: s, r')
+    | _ => (v, r)
+  | toks => ([], toks)
+
+/-- `_names` -/
+def names : List OTok → List (List Char) × List OTok
+  | .eol :: r => ([], r)
+  | .name s _ :: r => let (ns, r') := names r; (s :: ns, r')
+  | .defs l :: r => let (ns, r') := names r; (l ++ ns, r')
+  | toks => ([], toks)
+
 mutual
 /-- `_struct(tokens, register)`; the first token is the STRUCT token -/
-def structH : Nat → Bool → List Tok → Except PErr (TypeRef × List Tok)
+def structH : Nat → Bool → List OTok → Except PErr (TypeRef × List OTok)
   | 0, _, _ => .error .internal
-  | _, _, [] => .error .eolIndex
-  | fuel + 1, register, stype :: toks =>
-    let isUnion := startsWith ['u', 'n', 'i', 'o', 'n'] stype.value
-    let (tag, toks) : Option (List Char) × List Tok := match toks with
-      | t :: r => if t.kind = .ident then (some t.value, r) else (none, toks)
-      | [] => (none, [])
+  | fuel + 1, register, .struct isUnion :: toks =>
+    let (tag, toks) : Option (List Char) × List OTok := match toks with
+      | .ident v :: r => (some v, r)
+      | _ => (none, toks)
     match toks with
     | [] => .error .noneAttribute
-    | t :: r =>
-      if t.kind = .name then
-        match tag, register with
-        | some n, false => .ok (.structRef n, toks)
-        | _, _ => .error .unexpectedAnonStruct
-      else if t.kind ≠ .block then .error .expectedBlock
-      else
-        match fieldsH fuel r with
-        | .error e => .error e
-        | .ok (fields, toks) =>
-          let nm : Except PErr (List (List Char) × List Tok) := if register then names toks else .ok ([], toks)
-          match nm with
-          | .error e => .error e
-          | .ok (ns, toks) =>
-            let toks := match toks with
-              | t :: r => if t.kind = .eol then r else toks
-              | [] => []
-            if register && ns.isEmpty && tag.isNone then .error .structNoName
-            else .ok (.inline (.mk isUnion tag fields ns), toks)
+    | .name _ _ :: _ =>
+      match tag, register with
+      | some n, false => .ok (.structRef n, toks)
+      | _, _ => .error .unexpectedAnonStruct
+    | .block _ :: r =>
+      match fieldsH fuel r with
+      | .error e => .error e
+      | .ok (fields, toks) =>
+        let (ns, toks) : List (List Char) × List OTok := if register then names toks else ([], toks)
+        let toks := match toks with
+          | .eol :: r => r
+          | _ => toks
+        if register && ns.isEmpty && tag.isNone then .error .structNoName
+        else .ok (.inline (.mk isUnion tag fields ns), toks)
+    | _ :: _ => .error .expectedBlock
+  | _, _, _ => .error .internal
 
 /-- the member loop of `_struct`: until `}` or the end of the tokens -/
-def fieldsH : Nat → List Tok → Except PErr (List FieldDecl × List Tok)
+def fieldsH : Nat → List OTok → Except PErr (List FieldDecl × List OTok)
   | 0, _ => .error .internal
   | _, [] => .ok ([], [])
-  | fuel + 1, t :: r =>
-    if t.kind = .block ∧ t.value = ['}'] then .ok ([], r) else
-    match fieldH fuel (t :: r) with
+  | _, .block true :: r => .ok ([], r)
+  | fuel + 1, toks =>
+    match fieldH fuel toks with
     | .error e => .error e
     | .ok (f, toks) =>
       match fieldsH fuel toks with
@@ -632,31 +660,29 @@ def fieldsH : Nat → List Tok → Except PErr (List FieldDecl × List Tok)
       | .ok (fs, toks) => .ok (f :: fs, toks)
 
 /-- `_parse_field` -/
-def fieldH : Nat → List Tok → Except PErr (FieldDecl × List Tok)
+def fieldH : Nat → List OTok → Except PErr (FieldDecl × List OTok)
   | 0, _ => .error .internal
   | fuel + 1, toks =>
-    let head : Except PErr (TypeRef × List Tok × Bool) := match toks with
-      | t :: _ =>
-        if t.kind = .ident then let (s, r) := identifier toks; .ok (.name s, r, false)
-        else if t.kind = .struct then
-          match structH fuel false toks with
-          | .error e => .error e
-          | .ok (ty, r) => .ok (ty, r, true)
-        else .ok (.none, toks, false)
-      | [] => .ok (.none, [], false)
+    let head : Except PErr (TypeRef × List OTok × Bool) := match toks with
+      | .ident _ :: _ => let (s, r) := identifier toks; .ok (.name s, r, false)
+      | .struct _ :: _ =>
+        match structH fuel false toks with
+        | .error e => .error e
+        | .ok (ty, r) => .ok (ty, r, true)
+      | _ => .ok (.none, toks, false)
     match head with
     | .error e => .error e
     | .ok (ty, toks, wasStruct) =>
       match toks with
-      | [] => if wasStruct then .ok (.anon ty, []) else .error .noneAttribute
-      | t :: r =>
-        if t.kind ≠ .name then (if wasStruct then .ok (.anon ty, toks) else .error .expectedName) else
-        match parseDeclarator t.value with
+      | .name _ d :: r =>
+        match d with
         | .error e => .error e
         | .ok d =>
           match eol r with
           | .error e => .error e
           | .ok r' => .ok (.named ty d, r')
+      | [] => if wasStruct then .ok (.anon ty, []) else .error .noneAttribute
+      | _ :: _ => if wasStruct then .ok (.anon ty, toks) else .error .expectedName
 end
 
 /-- one name of a typedef: `_parse_field_type`, then "typedefs cannot have bitfields" -/
@@ -665,66 +691,56 @@ def typedefName (n : List Char) : Except PErr Declarator :=
   | .error e => .error e
   | .ok d => if d.bits.isSome then .error .typedefBitfield else .ok d
 
-/-- `_typedef`; the first token is the TYPEDEF token -/
-def typedefH : List Tok → Except PErr (Decl × List Tok)
-  | [] => .error .eolIndex
-  | _ :: toks =>
-    let head : Except PErr (TypeRef × List Tok) := match toks with
-      | t :: _ =>
-        if t.kind = .ident then let (s, r) := identifier toks; .ok (.name s, r)
-        else if t.kind = .struct then structH (3 * toks.length + 4) false toks
-        else .ok (.none, toks)
-      | [] => .ok (.none, [])
-    match head with
-    | .error e => .error e
-    | .ok (ty, toks) =>
-      match names toks with
+/-- `_typedef`; after the TYPEDEF token -/
+def typedefH (toks : List OTok) : Except PErr (Decl × List OTok) :=
+  let head : Except PErr (TypeRef × List OTok) := match toks with
+    | .ident _ :: _ => let (s, r) := identifier toks; .ok (.name s, r)
+    | .struct _ :: _ => structH (3 * toks.length + 4) false toks
+    | _ => .ok (.none, toks)
+  match head with
+  | .error e => .error e
+  | .ok (ty, toks) =>
+    let (ns, toks) := names toks
+    match ty, ns with
+    | .none, _ :: _ => .error .typedefNoType
+    | _, _ =>
+      match ns.mapM typedefName with
       | .error e => .error e
-      | .ok (ns, toks) =>
-        match ty, ns with
-        | .none, _ :: _ => .error .typedefNoType
-        | _, _ =>
-          match ns.mapM typedefName with
-          | .error e => .error e
-          | .ok ds => .ok (.typedef ty ds, toks)
+      | .ok ds => .ok (.typedef ty ds, toks)
 
-/-- `_enum`; the first token is the ENUM token -/
-def enumH : List Tok → Except PErr (Decl × List Tok)
-  | [] => .error .eolIndex
-  | t :: toks =>
-    match matchEnum isWs (t.value ++ [';']) with
-    | none => .error .rematchAttribute
-    | some (m, _, _) =>
-      match eol toks with
-      | .error e => .error e
-      | .ok r => .ok (.enum m.isFlag (m.name.getD []) (match m.type with | some ty => ty | none => ['u', 'i', 'n', 't', '3', '2'])
-                        (enumMembers m.values), r)
+/-- `_enum`; `m`: the groups of the ENUM token, `toks`: the tokens after it -/
+def enumH (m : Option EnumM) (toks : List OTok) : Except PErr (Decl × List OTok) :=
+  match m with
+  | none => .error .rematchAttribute
+  | some m =>
+    match eol toks with
+    | .error e => .error e
+    | .ok r => .ok (.enum m.isFlag (m.name.getD []) (match m.type with | some ty => ty | none => ['u', 'i', 'n', 't', '3', '2'])
+                      (enumMembers m.values), r)
 
 /-- one iteration of the loop of `parse` -/
-def declH : List Tok → Except PErr (Decl × List Tok)
+def declH : List OTok → Except PErr (Decl × List OTok)
   | [] => .error .internal
-  | t :: toks =>
-    match t.kind with
-    | .config => match matchConfig t.value with
-      | some (m, _, _) => .ok (.config (splitOn1 ',' m.values), toks)
-      | none => .error .rematchAttribute
-    | .define => match matchDefine isWs t.value with
-      | some (m, _, _) => .ok (.const m.name m.value, toks)
-      | none => .error .rematchAttribute
-    | .typedef => typedefH (t :: toks)
-    | .struct =>
-      match structH (3 * toks.length + 7) true (t :: toks) with
-      | .ok (.inline a, r) => .ok (.aggr a, r)
-      | .ok _ => .error .internal
-      | .error e => .error e
-    | .enum => enumH (t :: toks)
-    | .lookup => match matchLookup isWs (t.value ++ [';']) with
-      | some (m, _, _) => .ok (.lookup m.name m.value, toks)
-      | none => .error .rematchAttribute
-    | _ => .error .unexpectedToken
+  | .config m :: toks => match m with
+    | some m => .ok (.config (splitOn1 ',' m.values), toks)
+    | none => .error .rematchAttribute
+  | .define m :: toks => match m with
+    | some m => .ok (.const m.name m.value, toks)
+    | none => .error .rematchAttribute
+  | .typedef :: toks => typedefH toks
+  | .struct u :: toks =>
+    match structH (3 * toks.length + 7) true (.struct u :: toks) with
+    | .ok (.inline a, r) => .ok (.aggr a, r)
+    | .ok _ => .error .internal
+    | .error e => .error e
+  | .enum m :: toks => enumH m toks
+  | .lookup m :: toks => match m with
+    | some m => .ok (.lookup m.name m.value, toks)
+    | none => .error .rematchAttribute
+  | _ :: _ => .error .unexpectedToken
 
 /-- the loop of `parse`: the declarations completed, and the error that ended the parse (if any) -/
-def declsH : Nat → List Tok → List Decl × Option PErr
+def declsH : Nat → List OTok → List Decl × Option PErr
   | 0, _ => ([], some .internal)
   | _, [] => ([], none)
   | fuel + 1, t :: toks =>
@@ -732,7 +748,7 @@ def declsH : Nat → List Tok → List Decl × Option PErr
     | .error e => ([], some e)
     | .ok (d, r) => let (ds, e) := declsH fuel r; (d :: ds, e)
 
-def parseToks (toks : List Tok) : List Decl × Option PErr := declsH (toks.length + 1) toks
+def parseToks (toks : List Tok) : List Decl × Option PErr := declsH (toks.length + 1) (toks.map Tok.obs)
 
 /-- `TokenParser.parse` up to type resolution -/
 def parseDecls (text : List Char) : List Decl × Option PErr :=
